@@ -59,10 +59,10 @@ theorem incr_zip_summary (n : Nat) (L : LevelCfg σ (ItemH κ ν n)) :
         List.flatMap_cons, List.map_append]
       simp [slotItems, Out.chunks]
 
-theorem regionsUp_old (n : Nat) : ∀ (nds : List (NodeH κ ν (n+1))) (outs : List (Out (ItemH κ ν n))),
-    (regionsUp n nds outs).map (·.old) = nds
-  | [], _ => rfl
-  | nd :: rest, outs => by
+theorem regionsUp_old (n : Nat) : ∀ (nds : List (NodeH κ ν (n+1))) (outs : List (Out (ItemH κ ν n))) (pk : Bool),
+    (regionsUp n nds outs pk).map (·.old) = nds
+  | [], _, _ => rfl
+  | nd :: rest, outs, pk => by
     simp only [regionsUp, List.map_cons, regionsUp_old n rest]
 
 theorem zip_slot_clean (n : Nat) : ∀ (nd : List (ItemH κ ν (n+1))) (mine : List (Out (ItemH κ ν n))),
@@ -78,29 +78,30 @@ theorem zip_slot_clean (n : Nat) : ∀ (nd : List (ItemH κ ν (n+1))) (mine : L
     | reused c => simp [slotItems]
     | fresh cs => simp [Out.isFresh] at hf
 
-theorem regionsUp_clean (n : Nat) : ∀ (nds : List (NodeH κ ν (n+1))) (outs : List (Out (ItemH κ ν n))),
-    nds.flatten.length ≤ outs.length → CleanUnchanged (regionsUp n nds outs)
-  | [], _, _ => by intro r hr; simp [regionsUp] at hr
-  | nd :: rest, outs, hlen => by
+theorem regionsUp_clean (n : Nat) : ∀ (nds : List (NodeH κ ν (n+1))) (outs : List (Out (ItemH κ ν n))) (pk : Bool),
+    nds.flatten.length ≤ outs.length → CleanUnchanged (regionsUp n nds outs pk)
+  | [], _, _, _ => by intro r hr; simp [regionsUp] at hr
+  | nd :: rest, outs, pk, hlen => by
     have hl : nd.length ≤ outs.length := by
       rw [List.flatten_cons, List.length_append] at hlen; omega
     intro r hr hd
     simp only [regionsUp, List.mem_cons] at hr
     rcases hr with rfl | hr
-    · exact zip_slot_clean n nd (outs.take nd.length) (by simp [List.length_take]; omega) hd
-    · exact regionsUp_clean n rest (outs.drop nd.length)
+    · simp only [Bool.or_eq_false_iff] at hd
+      exact zip_slot_clean n nd (outs.take nd.length) (by simp [List.length_take]; omega) hd.1
+    · exact regionsUp_clean n rest (outs.drop nd.length) _
         (by rw [List.flatten_cons, List.length_append] at hlen; rw [List.length_drop]; omega) r hr hd
 
-theorem regionsUp_new (n : Nat) : ∀ (nds : List (NodeH κ ν (n+1))) (outs : List (Out (ItemH κ ν n))),
+theorem regionsUp_new (n : Nat) : ∀ (nds : List (NodeH κ ν (n+1))) (outs : List (Out (ItemH κ ν n))) (pk : Bool),
     nds.flatten.length ≤ outs.length →
-    (regionsUp n nds outs).flatMap (·.new) = (nds.flatten.zip outs).flatMap (slotItems n)
-  | [], _, _ => rfl
-  | nd :: rest, outs, hlen => by
+    (regionsUp n nds outs pk).flatMap (·.new) = (nds.flatten.zip outs).flatMap (slotItems n)
+  | [], _, _, _ => rfl
+  | nd :: rest, outs, pk, hlen => by
     have hl : nd.length ≤ outs.length := by
       rw [List.flatten_cons, List.length_append] at hlen; omega
     have hsplit : outs = outs.take nd.length ++ outs.drop nd.length := (List.take_append_drop _ _).symm
     simp only [regionsUp, List.flatMap_cons, List.flatten_cons]
-    rw [regionsUp_new n rest (outs.drop nd.length)
+    rw [regionsUp_new n rest (outs.drop nd.length) _
       (by rw [List.flatten_cons, List.length_append] at hlen; rw [List.length_drop]; omega)]
     conv => rhs; rw [hsplit]
     rw [List.zip_append (by simp [List.length_take]; omega), List.flatMap_append]
